@@ -3,7 +3,7 @@
   Property theorems only (model: G9.SrvLife). A Tflush is itself a request (its worker goes
   through `fl0 → fl1 → fl2 → tail`), so what C03 proves of requests holds of it too.
 -/
-import G9Proofs.Lemmas.LifeReach
+import G9Proofs.Lemmas.LifeFlush
 namespace G9.C07
 open G9 G9.Life
 
@@ -188,5 +188,49 @@ example : ((LS.init 4).run [.recv 5 none, .recv 9 (some 5), .check 1, .dispatch 
     .flushAct 1, .check 0, .selfRespond 0, .mark 0, .post 0, .queue 0, .unlink 0, .next 0, .flushes 0,
     .mark 2, .post 2, .queue 2, .send, .procEnd 1]).map
     (fun s => (s.wire, s.implLog, (s.req 0).noRun, (s.req 0).rs)) = some ([1], [], true, true) := by decide
+
+/-- **Reply before Rflush** (partial: schedules of an ordinary session, `LS.tame` — no Tflush aimed
+    at a Tflush, no hand-over of waiting flushes to a successor under the same tag, `next` starts a
+    queued request; flush of a flush and K-6 shapes are decided by the correspondence only).
+    In every state reached by such a schedule, for a Tflush `f` whose lookup found request `t`:
+    once the Rflush is queued (or written), a reply to `t` — if there is one at all — was queued
+    before it; and if there is none, there never will be, in any continuation whatsoever. -/
+theorem reply_before_rflush_partial (cap : Nat) (es : List Ev) (s : LS) (h : (LS.init cap).runT es = some s)
+    (f t : Nat) (hl : (s.req f).looked = some t) (hf : f ∈ out s) :
+    (t ∈ out s → Before (out s) t f) ∧
+    (t ∉ out s → ∀ (es' : List Ev) (s' : LS), s.run es' = some s' → t ∉ out s') := by
+  obtain ⟨hI, hF⟩ := fi_runT es _ s (inv_init cap) (fi_init cap) h
+  have hrs := rs_of_out s hI.1.2 f hf
+  have hnf := hF.z f t hl (Or.inl hrs)
+  have htn := (hF.lkw f t hl).2.2.1
+  refine ⟨hF.ord f t hl hf, ?_⟩
+  intro hno es'
+  clear h hF hl hf hrs
+  induction es' generalizing s with
+  | nil => intro s' hr; simp [LS.run] at hr; subst hr; exact hno
+  | cons e es' ih =>
+    intro s' hr
+    simp only [LS.run] at hr
+    cases hs : s.step e with
+    | none => rw [hs] at hr; cases hr
+    | some s1 =>
+      rw [hs] at hr
+      have hn1 := (wire_step s s1 e hs).2
+      exact ih s1 (inv_step s s1 e hI hs) (nf_step s s1 e hs t htn hnf) (Nat.lt_of_lt_of_le htn hn1)
+        (fun hm => hno (out_step_nf s s1 e hI.1.2 hs t hnf hm)) s' hr
+
+/-- the lookup records its target exactly when the table holds a request under the old tag -/
+theorem lookup_finds_newest (s s' : LS) (f ot t : Nat) (hf : f < s.n) (hw : (s.req f).wpc = .fl0)
+    (hot : (s.req f).oldtag = some ot) (hhd : (s.chain ot).head? = some t) (hs : s.step (.flushLookup f) = some s') :
+    (s'.req f).looked = some t ∧ (s'.req f).wpc = .fl1 (some t) := by
+  simp only [LS.step, hf, hw, and_self, if_true, hot, hhd] at hs
+  cases hs
+  constructor <;> simp
+
+/-! ### non-vacuity of the tame hypothesis: request 0 (tag 5) in the implementation, flushed by request 1 -/
+example : ((LS.init 4).runT [.recv 5 none, .check 0, .dispatch 0, .recv 9 (some 5), .check 1, .dispatch 1,
+    .flushLookup 1, .flushMark 1, .flushAct 1, .procEnd 1, .answer 0, .mark 0, .post 0, .queue 0, .send, .unlink 0,
+    .next 0, .flushes 0, .mark 1, .post 1, .queue 1, .send, .flushes 0, .flushes 0]).map
+    (fun s => (s.wire, (s.req 1).looked)) = some ([0, 1], some 0) := by decide
 
 end G9.C07
